@@ -222,6 +222,9 @@ func c19Body(p c19Params) func() explore.SchedOutcome {
 			vrt.Settle(5 * time.Second)
 			if r := b.Reply(id); r == nil || r.Err != 0 {
 				fail("board-wedged-after-failed-post", fmt.Sprintf("get-messages after a post whose disk write failed: %v; blocked: %v", r, vrt.Blocked()))
+			} else if pr := a.Reply(pid); (pr == nil || pr.Err != 0) && strings.Contains(fieldStr(r, ref.FData), "lost post") {
+				// the post was not acknowledged and nobody was told about it: it is not on the board either
+				fail("unacknowledged-post-served-from-the-board", "a post whose disk write failed (no success reply, no announcement) is part of the board the next reader receives")
 			}
 			id2 := b.Req(ref.TOldPostNews, ref.FS(ref.FData, "next post"))
 			vrt.Settle(5 * time.Second)
